@@ -2,6 +2,7 @@ package subj
 
 import (
 	"math/rand"
+	"strings"
 
 	"github.com/bradenaw/juniper/container/xheap"
 	"github.com/bradenaw/juniper/iterator"
@@ -101,9 +102,13 @@ func DriveHeap(r *rec.Rec, rng *rand.Rand, run, ops int, variant string) {
 // keys; variant "iter": up to three live iterators interleaved with the mutations.
 func DrivePQ(r *rec.Rec, rng *rand.Rand, run, ops int, variant string) {
 	K, P := 12, 6
-	big := variant == "big" // larger heaps (7-24 keys, 9 priorities), removals of inner keys followed by pops
+	big := strings.HasPrefix(variant, "big") // larger heaps (7-24 keys, 9 priorities), removals of inner keys followed by pops
 	if big {
 		K, P = 24, 9
+	}
+	div := 1
+	if strings.HasSuffix(variant, "coarse") { // priorities compared as p/3: different values that tie
+		div, P = 3, 9
 	}
 	cmp := run%2 == 1
 	var q xheap.PriorityQueue[int, int]
@@ -134,7 +139,7 @@ func DrivePQ(r *rec.Rec, rng *rand.Rand, run, ops int, variant string) {
 		init = append(init, kp)
 		initArg = append(initArg, []int{kp.K, kp.P})
 	}
-	emit("New", []any{initArg}, 0, func() int { q = newPQ(cmp, init); return resOK })
+	emit("New", []any{initArg}, 0, func() int { q = newPQ(cmp, div, init); return resOK })
 	for i := 0; i < ops; i++ {
 		c := rng.Intn(100)
 		if variant == "iter" && c < 35 {
@@ -170,7 +175,7 @@ func DrivePQ(r *rec.Rec, rng *rand.Rand, run, ops int, variant string) {
 		}
 		switch {
 		case c < 40:
-			p := 1 + rng.Intn(6)
+			p := 1 + rng.Intn(P)
 			emit("Update", []int{k, p}, 0, func() int { q.Update(k, p); return resOK })
 		case c < 52:
 			emit("Remove", []int{k}, 0, func() int { q.Remove(k); return resOK })
